@@ -60,9 +60,21 @@ def replay(cfg):
     return {"reproduced": bool(f), "failed_clauses": f[:3]}
 
 
+def tensor_order(seed):
+    """rotate_psi / rotate_rho on non-palindromic basis strings against the dense Kronecker product (site 0 leftmost)."""
+    from drivers import C04 as D4
+    bad = []
+    for b in ("XZ", "ZY", "ZXZ", "XZZY", "YZX"):
+        for sym in (False, True):
+            f = D4.check(b, sym, None, seed)
+            if f:
+                bad.append(({"basis": b, "user_dictionary": sym}, str(f[0])[:200], "tensor order"))
+    return bad
+
+
 def bounded(tier, seed):
     n = 4 if tier == "quick" else 40
-    f = native_check(seed, n)
+    f = native_check(seed, n) + tensor_order(seed)
     return {"driver": "drivers/C19.native_check", "label": "bounded", "evaluations": n, "failures": len(f),
             "bound": "%d sets of random data files (any N, n, alphabet incl. a custom letter, complex targets) written with numpy and read back through load_data / load_data_DM" % n,
             "first_failures": f[:3]}
